@@ -408,7 +408,7 @@ func main() {
 		// timed extension (C05): bounded liveness from every explored state
 		if rn.liveN != 0 {
 			t1 := time.Now()
-			strategies := []string{"silent", "helpful", "spoiler", "equivocator", "prepare-only"}
+			strategies := []string{"silent", "helpful", "spoiler", "equivocator", "prepare-only", "poisoner"}
 			lr := e.Liveness(rn.liveN, strategies, *tier != "quick")
 			liveExt += lr.Extensions
 			info["liveness"] = map[string]interface{}{"states_extended": lr.States - lr.Skipped, "states_skipped_precondition": lr.Skipped, "extensions": lr.Extensions, "real_steps": lr.Steps, "max_view_reached": lr.MaxViews, "strategies": strategies, "wall_s": time.Since(t1).Seconds()}
